@@ -389,6 +389,20 @@ pub fn run(ctx: &Ctx) -> Vec<Eng> {
             e.max_depth = e.max_depth.max(hz as u64);
             e.transitions += run_case(kind, &seq, e);
         });
+        {
+            // 40 rounds within one deviation of the default round (long runs of identical rounds)
+            let cases = deviation_cases(40, nsym - 1, 1);
+            par_cases(&mut e, &cases, budget, |c, e| {
+                let mut seq = vec![1usize; 40];
+                for &(p, a) in c {
+                    seq[p as usize] = if (a as usize) < 1 { 0 } else { a as usize + 1 };
+                }
+                e.executions += 1;
+                e.states += 1;
+                e.max_depth = e.max_depth.max(40);
+                e.transitions += run_case(kind, &seq, e);
+            });
+        }
         if ctx.thorough {
             let cases = deviation_cases(hz, NPART - 1, 3);
             par_cases(&mut e, &cases, budget, |c, e| {
@@ -401,7 +415,7 @@ pub fn run(ctx: &Ctx) -> Vec<Eng> {
                 e.transitions += run_case(kind, &seq, e);
             });
         }
-        e.bounds.push_str(&format!("; plus all {}-round sequences within {} deviations of the default round over the full alphabet{}", hz, k, if ctx.thorough { " and within 3 deviations over the partner options" } else { "" }));
+        e.bounds.push_str(&format!("; plus all {}-round sequences within {} deviations of the default round over the full alphabet, all 40-round sequences within 1 deviation{}", hz, k, if ctx.thorough { " and within 3 deviations over the partner options" } else { "" }));
         out.push(e);
     }
     out
